@@ -43,22 +43,136 @@ def leaf_monotone(f, slot, order, st):
 class Mono(object):
     """Sign-of-dependence analysis: is a term non-decreasing when the atoms in `up` increase?"""
 
-    def __init__(self, ev, st, up):
+    def __init__(self, ev, st, up, grid=None):
+        self.slot = grid.slot if grid is not None else None
         self.ev = ev
         self.st = st
         self.up = set(a.sortkey() for a in up)
         self.b = Bounds(ev, st)
         self.memo = {}
         self.why = []
+        self.grid = grid  # Grid(st, slot, order, limit): exact tabulation where the sign rules fail
+        self.tabulated = 0
+        self.settled = 0
+        self.ev_of = {}  # term key -> events still alive at that term
+        self.collect = []  # stack: events reported by the sub-terms of the term being analysed
+        self.facts = ()  # path conditions (independent of the stepped metric) the current sub-term is under
 
     def dep(self, t):
-        """'0' independent, '+' non-decreasing, '?' unknown."""
-        k = t.sortkey() if isinstance(t, Term) else id(t)
+        """'0' independent, '+' non-decreasing (except on the remembered events of this term),
+        '?' unknown.
+
+        Events: grid steps on which some tabulated sub-term decreases.  They belong to the
+        sub-term and are propagated to *every* term that uses it: a rounding / capping / selecting
+        operator drops the events on which it does not itself decrease (decided by tabulating the
+        operator on that step), every other operator passes them on.  What reaches the score is
+        decided on the score."""
+        k = (t.sortkey() if isinstance(t, Term) else id(t), tuple(f.sortkey() for f in self.facts))
         if k in self.memo:
+            if self.collect:
+                self.collect[-1].extend(self.ev_of.get(k, []))
             return self.memo[k]
-        r = self._dep(t)
+        self.collect.append([])
+        try:
+            r = self._dep(t)
+        finally:
+            below = self.collect.pop()
+        own = []
+        seen = set()
+        for e in below:
+            if id(e) not in seen:
+                seen.add(id(e))
+                own.append(e)
+        if r == "?" and self.grid is not None and isinstance(t, Term) and not isinstance(t, (Cmp, BoolOp)):
+            r, new = self.tabulate(t)
+            own = new  # the table of t itself supersedes what was known about its parts
+        elif r == "+" and own and isinstance(t, App) and t.op in ("quant", "min", "max", "ite"):
+            keep = []
+            for e in own:
+                if self.check_event(e, t, self.grid.limit) is None:
+                    self.settled += 1
+                else:
+                    keep.append(e)
+            own = keep
+        if r not in ("+", "0"):
+            own = []
+        self.ev_of[k] = own
         self.memo[k] = r
+        if self.collect:
+            self.collect[-1].extend(own)
         return r
+
+    MAX_PAIRS = 400
+
+    def check_event(self, ev_, t, limit):
+        """Does the enclosing term t decrease on a remembered event?  None when it never does."""
+        lo_full, hi_full, lo_mine, hi_mine, exact = ev_
+        if exact:
+            return self.grid.check_fixed(t, lo_full, hi_full, limit)
+        return self.grid.check_steps(t, [(lo_mine, hi_mine)], limit)
+
+    @staticmethod
+    def distinct_events(steps, slot):
+        """Events (lower row, higher row, my-cluster lower, my-cluster higher, exact) without
+        repetition: an exact event is identified by its full rows, an inexact one by the step of
+        my cluster only (everything else is re-enumerated when it is lifted)."""
+        seen = {}
+        for st_ in steps:
+            lo_full, hi_full, lo, hi, exact = st_[0], st_[1], st_[4], st_[5], st_[6]
+            src = lo_full if exact else lo
+            k = (tuple(sorted((k_, T.ckey(x)) for k_, x in src.items())), T.ckey(hi.get(slot)))
+            seen.setdefault(k, (lo_full, hi_full, lo, hi, exact))
+        return list(seen.values())
+
+    def tabulate(self, t):
+        """Exact table of the sub-term along the chains of the stepped metric.  Returns (verdict,
+        events): the steps where it decreases are remembered as events and the sub-term is treated
+        as non-decreasing on all other steps."""
+        verdicts = []
+        events = []
+        parts = [t]
+        if isinstance(t, P):
+            parts = self.additive_components(t)
+        for u in parts:
+            d, info = self.grid.decide(u)
+            if d in ("+", "0"):
+                self.tabulated += 1
+                verdicts.append(d)
+            elif d == "-":
+                steps = self.distinct_events(info, self.slot)
+                if len(steps) > self.MAX_PAIRS:
+                    self.why.append("a sub-term decreases on %d grid steps" % len(steps))
+                    return "?", []
+                self.tabulated += 1
+                events.extend(steps)
+                verdicts.append("+")
+            else:
+                self.why.append(info)
+                return "?", []
+        return ("+" if "+" in verdicts else "0"), events
+
+    def additive_components(self, p):
+        """Splits a polynomial into summands whose leaves share no metric slot: a sum is
+        non-decreasing if each summand is."""
+        groups = []  # [set(slots), {monomial: coef}]
+        for m, c in p.terms.items():
+            fins = {}
+            try:
+                for a, _ in m:
+                    all_fins(a, fins)
+            except Uncompilable:
+                return [p]
+            slots = set(s for f in fins.values() for s in f.slots)
+            hit = [g for g in groups if g[0] & slots]
+            new = [set(slots), {m: c}]
+            for g in hit:
+                new[0] |= g[0]
+                new[1].update(g[1])
+                groups.remove(g)
+            groups.append(new)
+        if len(groups) <= 1:
+            return [p]
+        return [P(g[1], p.kind) for g in groups]
 
     def _dep(self, t):
         if isinstance(t, Const):
@@ -84,7 +198,7 @@ class Mono(object):
                             dq[rest] = dq.get(rest, Fraction(0)) + c * e
                             break
                 q = P(dq)
-                bd = self.b.term(q) if not q.is_const() else (q.const_value(), q.const_value())
+                bd = self.b.term(q, self.facts) if not q.is_const() else (q.const_value(), q.const_value())
                 if bd is None or bd[0] is None or bd[0] < 0:
                     self.why.append("partial derivative with respect to %s is not provably >= 0 (bound %s)" % (_short(a), bd))
                     return "?"
@@ -107,8 +221,17 @@ class Mono(object):
             if t.op == "ite":
                 c, a, b = t.args
                 dc = self.dep_cond(c)
-                da, db = self.dep(a), self.dep(b)
                 if dc == "0":
+                    # the condition does not involve the stepped metric: each arm under its path fact
+                    saved = self.facts
+                    try:
+                        self.facts = saved + ((c,) if isinstance(c, Cmp) else ())
+                        da = self.dep(a)
+                        nc = mk_not(c)
+                        self.facts = saved + ((nc,) if isinstance(nc, Cmp) else ())
+                        db = self.dep(b)
+                    finally:
+                        self.facts = saved
                     if "?" in (da, db):
                         return "?"
                     return "+" if "+" in (da, db) else "0"
@@ -126,7 +249,7 @@ class Mono(object):
         if isinstance(c, Const):
             return "0"
         if isinstance(c, Fin):
-            return "0"
+            return "dep" if self.slot is not None and self.slot in c.slots else "0"
         if isinstance(c, Cmp):
             return "0" if self.dep(c.poly) == "0" else "dep"
         if isinstance(c, BoolOp):
@@ -149,6 +272,8 @@ class Mono(object):
         if self.dep(p) != "+":
             self.why.append("threshold expression is not provably non-decreasing")
             return "?"
+        # grid steps on which the threshold expression decreases: harmless when the comparison
+        # does not fall back from the upper arm to the lower one on them
         if self.dep(low) != "0" or self.dep(high) == "?":
             return "?"
         bl = self.b.term(low if isinstance(low, P) else self.ev.to_poly(self.st, low, None))
@@ -218,46 +343,881 @@ def collect_leaves(t, out, seen=None):
             collect_leaves(a, out, seen)
 
 
+def grid_limit(ctx):
+    return 3000000 if ctx.tier == "thorough" else 60000
+
+
+def render_vector(v, row):
+    parts = []
+    for s, val in sorted(row.items()):
+        if s.startswith("m:") and val is not ABSENT:
+            parts.append("%s:%s" % (s[2:], val))
+    pre = ""
+    if v == 3:
+        pre = "CVSS:3.%s/" % row.get("minor", "x")
+    return pre + "/".join(parts)
+
+
+_WORK = {}
+
+
+def _compose_cases(om, v):
+    if v == 2:
+        return [("", om.st, None)], ("base_score", "temporal_score")
+    cases = [("3.%s S:%s MS:%s" % (c[0], c[1], "absent" if c[2] is ABSENT else c[2]), st, c) for c, st in v3_cases(om)]
+    # steps of Scope / Modified Scope themselves: the other scope metric and the minor version fixed
+    # (an omitted MS is the same as MS:X for every output: C05.nd; only the X spelling is tabulated)
+    for minor in om.space.dom["minor"]:
+        for MS in om.space.dom["m:MS"]:
+            if MS is ABSENT and "X" in om.space.dom["m:MS"]:
+                continue
+            st = om.st.copy()
+            st.dom["minor"] = (minor,)
+            st.dom["m:MS"] = (MS,)
+            cases.append(("3.%s MS:%s, step of S" % (minor, "absent" if MS is ABSENT else MS), st, (minor, None, "S")))
+        for S in [x for x in om.space.dom["m:S"] if x is not ABSENT]:
+            st = om.st.copy()
+            st.dom["minor"] = (minor,)
+            st.dom["m:S"] = (S,)
+            cases.append(("3.%s S:%s, step of MS" % (minor, S), st, (minor, None, "MS")))
+    return cases, SCORE_ATTRS
+
+
+def _compose_item(idx):
+    """One (case, score) work item; returns plain records (runs in a forked worker)."""
+    W = _WORK
+    om, v, order, modified_of, limit = W["om"], W["v"], W["order"], W["modified_of"], W["limit"]
+    label, st, case = W["cases"][idx[0]]
+    a = idx[1]
+    out = []
+    evals = 0
+    cn = Canon(om.ev, st)
+    scope_case = case is not None and case[1] is None
+    t = cn(om.attr(a))
+    if isinstance(t, App) and t.op == "ite" and any(isinstance(x, Const) and x.v is None for x in t.args[1:]):
+        t = [x for x in t.args[1:] if not (isinstance(x, Const) and x.v is None)][0]
+    leaves = {}
+    collect_leaves(t, leaves)
+    fins = {}
+    try:
+        all_fins(t, fins)
+    except Uncompilable:
+        fins = dict(leaves)
+    for k in list(order):
+        for mk in [k] + [m_ for m_, b in modified_of.items() if b == k]:
+            if scope_case != (mk in ("S", "MS")) or (scope_case and mk != case[2]):
+                continue
+            s = metric_slot(mk)
+            if v == 3 and a == "environmental_score" and label.startswith("3.0") and (mk in ("C", "I", "A", "MC", "MI", "MA", "CR", "IR", "AR")):
+                continue  # exempt by the property (3.0 standard is itself non-monotone here)
+            if not any(s in f.slots for f in fins.values()):
+                continue
+            up = [f for f in leaves.values() if s in f.slots]
+            if not scope_case and not all(leaf_monotone(f, s, order[k], st)[0] for f in up):
+                continue  # reported by C14.weights
+            g = Grid(st, s, order[k], limit, context=fins)
+            m = Mono(om.ev, st, up, grid=g)
+            d = m.dep(t)
+            ck = "CVSS%d.%s in %s%s" % (v, a, mk, (" [" + label + "]") if label else "")
+            # every grid step on which some sub-term decreases and that no enclosing operator
+            # absorbed is decided on the score itself
+            hit = None
+            note = None
+            lifted = 0
+            for step in m.ev_of.get((t.sortkey(), ()), []):
+                # few events get this far on a tree where the property holds: search generously
+                r = m.check_event(step, t, max(limit * 10, 1000000))
+                lifted += 1
+                if isinstance(r, tuple):
+                    hit = r
+                    break
+                if isinstance(r, str):
+                    note = r
+            evals += g.evals
+            if d in ("+", "0") and hit is None and note is None:
+                how = "sign rules"
+                if m.tabulated:
+                    how += " + %d tabulated sub-term(s), %d table entries" % (m.tabulated, g.evals)
+                if lifted or m.settled:
+                    how += "; %d grid step(s) where a sub-term decreases, each tabulated on an enclosing rounded term or the score: no decrease" % (lifted + m.settled)
+                out.append(("ok", ck, "non-decreasing: " + how))
+            elif hit is not None:
+                ra, rb, va, vb = hit
+                ra, rb = dict(ra), dict(rb)
+                fo_ = st.folder()
+                for sl in om.space.dom:
+                    # metrics fixed by the case, and metrics the score does not depend on (any value)
+                    if sl not in ra:
+                        dom_ = fo_.domain(sl)
+                        if dom_:
+                            ra[sl] = rb[sl] = dom_[0]
+                if v == 3:
+                    ra, rb = dict(ra, minor=case[0]), dict(rb, minor=case[0])
+                out.append(
+                    (
+                        "violation",
+                        "CVSS%d.%s decreases in %s" % (v, a, mk),
+                        "raising %s from %s to %s lowers %s from %s to %s: %s -> %s (exact tabulation of the value graph)"
+                        % (mk, ra.get(s), rb.get(s), a, float(va), float(vb), render_vector(v, ra), render_vector(v, rb)),
+                    )
+                )
+            else:
+                out.append(("undecided", ck, [str(x) for x in (m.why[:1] + ([note] if note else []))]))
+    return out, evals
+
+
 def check_compose(ctx, led, v, rule="C14.compose"):
-    """Monotonicity certificates by sign rules where they can be derived; otherwise undecided."""
+    """Monotonicity certificates: sign rules where they can be derived, exact tabulation of the
+    sub-terms where they cannot; a decreasing sub-term is lifted to the score and, if the score
+    itself decreases between two concrete vectors, reported as a violation.  The (case, score)
+    work items are independent and are spread over the cores (fork; the value graphs are shared)."""
+    import multiprocessing
+    import os
+
     om = get_model(ctx, v)
     spec = ctx.vspec(v)
-    order = spec["severity_order"]
-    modified_of = spec.get("modified_of", {})
-    groups = spec["groups"]
+    cases, targets = _compose_cases(om, v)
+    for a in targets:
+        om.attr(a)
+    _WORK.clear()
+    _WORK.update(
+        {"om": om, "v": v, "order": spec["severity_order"], "modified_of": spec.get("modified_of", {}), "limit": grid_limit(ctx), "cases": cases}
+    )
+    items = [(i, a) for i in range(len(cases)) for a in targets]
+    jobs = int(os.environ.get("VERIF_JOBS", "0") or 0) or min(16, os.cpu_count() or 1)
+    results = None
+    if jobs > 1 and len(items) > 2:
+        try:
+            mp = multiprocessing.get_context("fork")
+            with mp.Pool(jobs) as pool:
+                results = pool.map(_compose_item, items, chunksize=1)
+        except (OSError, ValueError):
+            results = None
+    if results is None:
+        results = [_compose_item(it) for it in items]
     certified = 0
     undecided = []
-    if v == 2:
-        cases = [("", om.st)]
-        targets = ("base_score", "temporal_score")
-    else:
-        cases = [("3.%s S:%s MS:%s" % (c[0], c[1], "absent" if c[2] is ABSENT else c[2]), st) for c, st in v3_cases(om)]
-        targets = SCORE_ATTRS
-    for label, st in cases:
-        cn = Canon(om.ev, st)
-        for a in targets:
-            t = cn(om.attr(a))
-            if isinstance(t, App) and t.op == "ite" and any(isinstance(x, Const) and x.v is None for x in t.args[1:]):
-                t = [x for x in t.args[1:] if not (isinstance(x, Const) and x.v is None)][0]
-            leaves = {}
-            collect_leaves(t, leaves)
-            metrics = list(order)
-            for k in metrics:
-                for mk in [k] + [m for m, b in modified_of.items() if b == k]:
-                    s = metric_slot(mk)
-                    if v == 3 and a == "environmental_score" and label.startswith("3.0") and (mk in ("C", "I", "A", "MC", "MI", "MA", "CR", "IR", "AR")):
-                        continue  # exempt by the property (3.0 standard is itself non-monotone here)
-                    up = [f for f in leaves.values() if s in f.slots]
-                    if not up:
-                        continue
-                    if not all(leaf_monotone(f, s, order[k], st)[0] for f in up):
-                        continue  # reported by C14.weights
-                    m = Mono(om.ev, st, up)
-                    d = m.dep(t)
-                    ck = "CVSS%d.%s in %s%s" % (v, a, mk, (" [" + label + "]") if label else "")
-                    if d in ("+", "0"):
-                        certified += 1
-                        led.ok(rule, ck, "cvss/%s.py" % om.modname, "non-decreasing by sign rules")
-                    else:
-                        undecided.append((ck, m.why[:1]))
+    tab_total = 0
+    seen_v = set()
+    for recs, evals in results:
+        tab_total += evals
+        for r in recs:
+            if r[0] == "ok":
+                certified += 1
+                led.ok(rule, r[1], "cvss/%s.py" % om.modname, r[2])
+            elif r[0] == "violation":
+                if r[1] in seen_v:
+                    continue
+                seen_v.add(r[1])
+                led.violation("C14.witness", r[1], "cvss/%s.py" % om.modname, r[2])
+            else:
+                undecided.append((r[1], r[2]))
+    led.count("grid_table_entries", tab_total)
     return certified, undecided
+
+
+# ---------------------------------------------------------------------------------------------
+# exact finite-grid decisions on value-graph sub-terms
+#
+# A score term depends on the metrics only through finitely many weight leaves.  Where the sign
+# rules fail (the changed-scope impact polynomial is not monotone on the reals, a condition that
+# depends on the stepped metric) the sub-term is *tabulated*: its leaves range over their finite
+# images, the stepped metric over its chain of values, and the exact rational value of the sub-term
+# is compared along every chain.  This is table folding of the value graph (no code of the analysed
+# package runs); exact rationals stand in for Decimal arithmetic, whose only inexact operation
+# here (**, 28 digits) is ~1e-28 relative, far below any non-zero difference on the grid.
+
+
+class Uncompilable(Exception):
+    pass
+
+
+def compile_term(t, memo=None):
+    """Closure row -> exact value for a canonical term; row maps slot -> value.  Shared sub-terms
+    are evaluated once per row (per-evaluation cache)."""
+    memo = memo if memo is not None else {}
+    inner = _compile_c(t, memo)
+    return lambda r: inner(r, {})
+
+
+def _compile_c(t, memo):
+    k = t.sortkey() if isinstance(t, Term) else None
+    if k is not None and k in memo:
+        return memo[k]
+    f = _compile(t, memo)
+    if k is not None and isinstance(t, (P, App, Cmp, BoolOp)):
+        raw = f
+        idx = len(memo)
+
+        def cached(r, c, raw=raw, idx=idx):
+            v = c.get(idx, c)
+            if v is c:
+                v = c[idx] = raw(r, c)
+            return v
+
+        f = cached
+    if k is not None:
+        memo[k] = f
+    return f
+
+
+def _num(v):
+    if v is NAN:
+        raise Uncompilable("nan")
+    if is_num(v):
+        return qof(v)
+    return v
+
+
+def _compile(t, memo):
+    from .absnum import q_round
+
+    if isinstance(t, Const):
+        c0 = _num(t.v)
+        return lambda r, c: c0
+    if isinstance(t, Fin):
+        slots = t.slots
+        table = dict((kk, _num(v)) for kk, v in t.table.items())
+        if len(slots) == 1:
+            s0 = slots[0]
+            return lambda r, c: table[(r[s0],)]
+        return lambda r, c: table[tuple(r[s_] for s_ in slots)]
+    if isinstance(t, P):
+        parts = []
+        for m, cf in t.terms.items():
+            parts.append((cf, [(_compile_c(a, memo), e) for a, e in m]))
+
+        def poly(r, c):
+            tot = 0
+            for cf, fs in parts:
+                x = cf
+                for f, e in fs:
+                    v = f(r, c)
+                    x = x * (v if e == 1 else v ** e)
+                    if x == 0:
+                        break
+                tot += x
+            return tot if isinstance(tot, Fraction) else Fraction(tot)
+
+        return poly
+    if isinstance(t, Cmp):
+        p = _compile_c(t.poly, memo)
+        op = t.op
+        return {
+            "<": lambda r, c: p(r, c) < 0,
+            "<=": lambda r, c: p(r, c) <= 0,
+            ">": lambda r, c: p(r, c) > 0,
+            ">=": lambda r, c: p(r, c) >= 0,
+            "==": lambda r, c: p(r, c) == 0,
+            "!=": lambda r, c: p(r, c) != 0,
+        }[op]
+    if isinstance(t, BoolOp):
+        fs = [_compile_c(a, memo) for a in t.args]
+        if t.op == "not":
+            return lambda r, c: not fs[0](r, c)
+        if t.op == "and":
+            return lambda r, c: all(f(r, c) for f in fs)
+        return lambda r, c: any(f(r, c) for f in fs)
+    if isinstance(t, App):
+        if t.op in ("min", "max"):
+            fs = [_compile_c(a, memo) for a in t.args]
+            g = min if t.op == "min" else max
+            return lambda r, c: g([f(r, c) for f in fs])
+        if t.op in ("float", "Decimal"):
+            return _compile_c(t.args[0], memo)
+        if t.op == "quant":
+            f = _compile_c(t.args[0], memo)
+            exp, mode = t.attrs
+            exp = Fraction(exp)
+
+            def quant(r, c):
+                v = q_round(f(r, c), exp, mode)
+                if v is None:
+                    raise Uncompilable("rounding mode")
+                return v
+
+            return quant
+        if t.op == "pow":
+            f = _compile_c(t.args[0], memo)
+            n = t.attrs[0]
+            return lambda r, c: f(r, c) ** n
+        if t.op == "ite":
+            cc, a, b = [_compile_c(x, memo) for x in t.args]
+            return lambda r, c: a(r, c) if cc(r, c) else b(r, c)
+        if t.op == "ind":
+            cc = _compile_c(t.args[0], memo)
+            return lambda r, c: Fraction(1) if cc(r, c) else Fraction(0)
+        if t.op == "div":
+            a, b = [_compile_c(x, memo) for x in t.args]
+            return lambda r, c: a(r, c) / b(r, c)
+        if t.op == "abs":
+            a = _compile_c(t.args[0], memo)
+            return lambda r, c: abs(a(r, c))
+    raise Uncompilable(type(t).__name__ + ":" + str(getattr(t, "op", "")))
+
+
+EPS = 1e-7
+
+
+def compile_float(t, memo=None):
+    """Binary floating-point twin of compile_term, used as a filter: the closure returns a float and
+    sets c["u"] when the row is within EPS of a discontinuity (a rounding boundary, a comparison
+    with zero), in which case the caller re-evaluates exactly.  Away from discontinuities the
+    accumulated float error (< 1e-12 on these terms) cannot change a comparison of two results
+    that differ by more than EPS."""
+    memo = memo if memo is not None else {}
+    inner = _fcompile_c(t, memo)
+    return inner
+
+
+def _fcompile_c(t, memo):
+    k = t.sortkey() if isinstance(t, Term) else None
+    if k is not None and k in memo:
+        return memo[k]
+    f = _fcompile(t, memo)
+    if k is not None and isinstance(t, (P, App, Cmp, BoolOp)):
+        raw = f
+        idx = len(memo)
+
+        def cached(r, c, raw=raw, idx=idx):
+            v = c.get(idx, c)
+            if v is c:
+                v = c[idx] = raw(r, c)
+            return v
+
+        f = cached
+    if k is not None:
+        memo[k] = f
+    return f
+
+
+def _fnum(v):
+    v = _num(v)
+    if isinstance(v, Fraction):
+        return float(v)
+    if isinstance(v, int) and not isinstance(v, bool):
+        return float(v)
+    return v
+
+
+def _fcompile(t, memo):
+    import math
+
+    if isinstance(t, Const):
+        c0 = _fnum(t.v)
+        return lambda r, c: c0
+    if isinstance(t, Fin):
+        slots = t.slots
+        table = dict((kk, _fnum(v)) for kk, v in t.table.items())
+        if len(slots) == 1:
+            s0 = slots[0]
+            return lambda r, c: table[(r[s0],)]
+        return lambda r, c: table[tuple(r[s_] for s_ in slots)]
+    if isinstance(t, P):
+        parts = []
+        for m, cf in t.terms.items():
+            parts.append((float(cf), [(_fcompile_c(a, memo), e) for a, e in m]))
+
+        def poly(r, c):
+            tot = 0.0
+            for cf, fs in parts:
+                x = cf
+                for f, e in fs:
+                    v = f(r, c)
+                    x = x * (v if e == 1 else v ** e)
+                tot += x
+            return tot
+
+        return poly
+    if isinstance(t, Cmp):
+        p = _fcompile_c(t.poly, memo)
+        op = t.op
+
+        def cmp_(r, c):
+            v = p(r, c)
+            if -EPS < v < EPS:
+                c["u"] = True
+            return {"<": v < 0, "<=": v <= 0, ">": v > 0, ">=": v >= 0, "==": v == 0, "!=": v != 0}[op]
+
+        return cmp_
+    if isinstance(t, BoolOp):
+        fs = [_fcompile_c(a, memo) for a in t.args]
+        if t.op == "not":
+            return lambda r, c: not fs[0](r, c)
+        if t.op == "and":
+            return lambda r, c: all([f(r, c) for f in fs])
+        return lambda r, c: any([f(r, c) for f in fs])
+    if isinstance(t, App):
+        if t.op in ("min", "max"):
+            fs = [_fcompile_c(a, memo) for a in t.args]
+            g = min if t.op == "min" else max
+            return lambda r, c: g([f(r, c) for f in fs])
+        if t.op in ("float", "Decimal"):
+            return _fcompile_c(t.args[0], memo)
+        if t.op == "quant":
+            f = _fcompile_c(t.args[0], memo)
+            exp, mode = t.attrs
+            fexp = float(Fraction(exp))
+            half = mode.endswith(("ROUND_HALF_UP", "ROUND_HALF_EVEN", "ROUND_HALF_DOWN"))
+            if not mode.endswith(("ROUND_CEILING", "ROUND_FLOOR", "ROUND_HALF_UP", "ROUND_HALF_EVEN", "ROUND_DOWN", "ROUND_UP")):
+                raise Uncompilable("rounding mode")
+
+            def quant(r, c):
+                x = f(r, c) / fexp
+                y = x - 0.5 if half else x
+                if abs(y - round(y)) < EPS * 10:
+                    c["u"] = True
+                if mode.endswith("ROUND_CEILING"):
+                    n = math.ceil(x)
+                elif mode.endswith("ROUND_FLOOR"):
+                    n = math.floor(x)
+                elif mode.endswith("ROUND_HALF_UP"):
+                    n = math.floor(x + 0.5) if x >= 0 else -math.floor(-x + 0.5)
+                elif mode.endswith("ROUND_HALF_EVEN"):
+                    n = round(x)
+                elif mode.endswith("ROUND_DOWN"):
+                    n = math.trunc(x)
+                else:
+                    n = math.ceil(x) if x >= 0 else math.floor(x)
+                return n * fexp
+
+            return quant
+        if t.op == "pow":
+            f = _fcompile_c(t.args[0], memo)
+            n = t.attrs[0]
+            return lambda r, c: f(r, c) ** n
+        if t.op == "ite":
+            cc, a, b = [_fcompile_c(x, memo) for x in t.args]
+            return lambda r, c: a(r, c) if cc(r, c) else b(r, c)
+        if t.op == "ind":
+            cc = _fcompile_c(t.args[0], memo)
+            return lambda r, c: 1.0 if cc(r, c) else 0.0
+        if t.op == "div":
+            a, b = [_fcompile_c(x, memo) for x in t.args]
+
+            def div(r, c):
+                d = b(r, c)
+                if -EPS < d < EPS:
+                    c["u"] = True
+                    return 0.0
+                return a(r, c) / d
+
+            return div
+        if t.op == "abs":
+            a = _fcompile_c(t.args[0], memo)
+            return lambda r, c: abs(a(r, c))
+    raise Uncompilable(type(t).__name__ + ":" + str(getattr(t, "op", "")))
+
+
+class Dual(object):
+    """Float-filtered exact evaluation of one term."""
+
+    def __init__(self, t, memo_exact, memo_float):
+        self.exact = compile_term(t, memo_exact)
+        self.fl = compile_float(t, memo_float)
+        self.n_exact = 0
+
+    def value(self, r):
+        """(float value or None/bool/str, unsure flag)"""
+        c = {}
+        v = self.fl(r, c)
+        return v, bool(c.get("u"))
+
+    def less(self, ra, va, ua, rb, vb, ub):
+        """Is value(rb) < value(ra)?  va/vb, ua/ub from value()."""
+        if va is None or vb is None or isinstance(va, (bool, str)) or isinstance(vb, (bool, str)):
+            return True
+        if not ua and not ub and abs(vb - va) > EPS:
+            return vb < va
+        self.n_exact += 1
+        return self.exact(rb) < self.exact(ra)
+
+    def differs(self, va, ua, vb, ub):
+        if isinstance(va, float) and isinstance(vb, float) and not ua and not ub:
+            return abs(vb - va) > EPS
+        return True
+
+
+def all_fins(t, out, seen=None):
+    """Every Fin (numeric or not) a term depends on."""
+    seen = seen if seen is not None else set()
+    if id(t) in seen:
+        return
+    seen.add(id(t))
+    if isinstance(t, Fin):
+        out[t.sortkey()] = t
+    elif isinstance(t, P):
+        for a in t.atoms():
+            all_fins(a, out, seen)
+    elif isinstance(t, App):
+        for a in t.args:
+            if isinstance(a, Term):
+                all_fins(a, out, seen)
+    elif isinstance(t, Cmp):
+        all_fins(t.poly, out, seen)
+    elif isinstance(t, BoolOp):
+        for a in t.args:
+            all_fins(a, out, seen)
+    elif isinstance(t, Opaque):
+        raise Uncompilable("opaque")
+
+
+class Grid(object):
+    """Exact tabulation of value-graph terms along the chains of one metric slot.
+
+    For a term T the leaves that share a metric slot with the stepped metric (directly or through
+    other leaves) form "my" cluster and are enumerated over raw rows; everything else reaches T only
+    through maximal sub-terms that do not involve the stepped metric, and is enumerated over the
+    distinct value tuples of those sub-terms (one representative raw row per tuple)."""
+
+    def __init__(self, st, slot, order, limit, context=None):
+        self.st = st
+        self.slot = slot
+        self.order = list(order)
+        self.limit = limit
+        self.fo = st.folder()
+        self.evals = 0
+        self.context = context or {}
+        self.prep = {}
+        self.cmemo = {}
+        self.fmemo = {}
+        self.supp = {}
+
+    # -- structure ---------------------------------------------------------------------------
+    def support(self, t):
+        k = id(t)
+        if k not in self.supp:
+            fs = {}
+            all_fins(t, fs)
+            self.supp[k] = (fs, frozenset(s for f in fs.values() for s in f.slots))
+        return self.supp[k]
+
+    def clusters(self, fins):
+        items = list(fins.values())
+        comp = []
+        for f in items:
+            hit = [c for c in comp if any(s in c["slots"] for s in f.slots)]
+            new = {"slots": set(f.slots), "fins": [f]}
+            for c in hit:
+                new["slots"] |= c["slots"]
+                new["fins"] += c["fins"]
+                comp.remove(c)
+            comp.append(new)
+        return comp
+
+    def rows(self, slots, fixed=None):
+        import itertools
+
+        slots = sorted(slots)
+        doms = [self.fo.domain(s) for s in slots]
+        n = 1
+        for d in doms:
+            n *= len(d)
+        if n > 300000:
+            raise Uncompilable("cluster of %d raw rows" % n)
+        for combo in itertools.product(*doms):
+            yield dict(zip(slots, combo))
+
+    def leaf_reps(self, cluster, extra_key=None):
+        """Distinct value tuples of a leaf cluster, one raw row each."""
+        seen = {}
+        for row in self.rows(cluster["slots"]):
+            try:
+                key = tuple(T.ckey(f.table[tuple(row[s] for s in f.slots)]) for f in cluster["fins"])
+            except KeyError:
+                continue  # infeasible row
+            seen.setdefault(key, row)
+        return list(seen.values())
+
+    def free_subterms(self, t, mine_slots, out):
+        """Maximal sub-terms of t whose leaves share no slot with my cluster."""
+        fs, slots = self.support(t)
+        if not fs:
+            return
+        if not (slots & mine_slots):
+            out[t.sortkey()] = (t, slots)
+            return
+        if isinstance(t, P):
+            for a in t.atoms():
+                self.free_subterms(a, mine_slots, out)
+        elif isinstance(t, App):
+            for a in t.args:
+                if isinstance(a, Term):
+                    self.free_subterms(a, mine_slots, out)
+        elif isinstance(t, Cmp):
+            self.free_subterms(t.poly, mine_slots, out)
+        elif isinstance(t, BoolOp):
+            for a in t.args:
+                self.free_subterms(a, mine_slots, out)
+
+    def prepare(self, t, fixed_row=None):
+        """(compiled t, my cluster, other groups' representative rows, exact) or raises
+        Uncompilable.  `fixed_row`: raw values already chosen (those slots are not enumerated).
+        exact: every class of the other groups is a tuple of leaf values (so a representative row
+        stands for itself in any enclosing term, not only in t)."""
+        import itertools
+
+        fixed_row = fixed_row or {}
+        fixed_slots = set(fixed_row)
+        key = (t.sortkey(), tuple(sorted((k_, T.ckey(x)) for k_, x in fixed_row.items())))
+        if key in self.prep:
+            return self.prep[key]
+        fins, slots = self.support(t)
+        fins = dict(fins)
+        f_t = Dual(t, self.cmemo, self.fmemo)
+        if self.slot not in slots:
+            r = (f_t, None, [], True)
+            self.prep[key] = r
+            return r
+        comps = self.clusters(fins)
+        mine = [c for c in comps if self.slot in c["slots"]][0]
+        # leaves of the enclosing score that live on my cluster's slots take part in the row key,
+        # so that a remembered step stands for exactly one valuation of every leaf involved
+        for k_, f in self.context.items():
+            if k_ not in fins and all(s in mine["slots"] for s in f.slots):
+                mine["fins"].append(f)
+        W = {}
+        self.free_subterms(t, frozenset(mine["slots"]), W)
+        groups = []
+        for sk, (w, wslots) in W.items():
+            hit = [g for g in groups if g["slots"] & wslots]
+            new = {"slots": set(wslots), "terms": [w]}
+            for g in hit:
+                new["slots"] |= g["slots"]
+                new["terms"] += g["terms"]
+                groups.remove(g)
+            groups.append(new)
+        other_reps = []
+        exact = True
+        for g in groups:
+            gslots = g["slots"] - fixed_slots
+            if not gslots:
+                continue
+            if not all(isinstance(w, Fin) for w in g["terms"]):
+                exact = False
+            leafs = [c for c in comps if c is not mine and (c["slots"] & g["slots"]) and not (c["slots"] <= fixed_slots)]
+            per_leaf = []
+            n = 1
+            for c in leafs:
+                if c["slots"] & fixed_slots:
+                    raise Uncompilable("leaf cluster partly fixed")
+                reps = self.leaf_reps(c)
+                per_leaf.append(reps)
+                n *= max(len(reps), 1)
+            if n > 200000:
+                raise Uncompilable("group of %d leaf combinations" % n)
+            fws = [compile_term(w, self.cmemo) for w in g["terms"]]
+            seen = {}
+            for combo in itertools.product(*per_leaf) if per_leaf else [()]:
+                row = dict(fixed_row)
+                for r_ in combo:
+                    row.update(r_)
+                try:
+                    k2 = tuple(T.ckey(fw(row)) for fw in fws)
+                except (KeyError, ZeroDivisionError, TypeError):
+                    continue
+                self.evals += len(fws)
+                seen.setdefault(k2, dict((k_, x) for k_, x in row.items() if k_ not in fixed_slots))
+            other_reps.append(list(seen.values()))
+        r = (f_t, mine, other_reps, exact)
+        self.prep[key] = r
+        return r
+
+    def chains(self, mine):
+        rest_slots = sorted(mine["slots"] - {self.slot})
+        vals = [v for v in self.order if v in self.fo.domain(self.slot)]
+        out = {}
+        for rest in self.rows(rest_slots):
+            chain = []
+            for v in vals:
+                row = dict(rest)
+                row[self.slot] = v
+                try:
+                    key = tuple(T.ckey(f.table[tuple(row[s] for s in f.slots)]) for f in mine["fins"])
+                except KeyError:
+                    continue
+                chain.append((key, row))
+            if len(chain) >= 2:
+                out.setdefault(tuple(k for k, _ in chain), chain)
+        return list(out.values())
+
+    # -- decisions ---------------------------------------------------------------------------
+    def decide(self, u):
+        """('+', None) non-decreasing along every chain, ('0', None) independent of the slot,
+        ('-', steps) with the grid steps [(row lower, row higher, value, value)] on which u
+        decreases, ('?', reason) when u cannot be tabulated within the limit."""
+        import itertools
+
+        try:
+            f_u, mine, other_reps, exact = self.prepare(u)
+            if mine is None:
+                return "0", None
+            chains = self.chains(mine)
+        except Uncompilable as e:
+            return "?", "not tabulated (%s)" % e
+        total = sum(len(c) for c in chains)
+        for reps in other_reps:
+            total *= max(len(reps), 1)
+        if total > self.limit:
+            return "?", "table of %d entries exceeds the limit %d" % (total, self.limit)
+        dependent = False
+        steps = []
+        for combo in itertools.product(*other_reps) if other_reps else [()]:
+            base = {}
+            for row in combo:
+                base.update(row)
+            for chain in chains:
+                prev = None
+                for key, row in chain:
+                    r = dict(base)
+                    r.update(row)
+                    try:
+                        val, uns = f_u.value(r)
+                        self.evals += 1
+                        if prev is not None:
+                            if not dependent and f_u.differs(prev[0], prev[3], val, uns):
+                                dependent = True
+                            if f_u.less(prev[1], prev[0], prev[3], r, val, uns):
+                                steps.append((prev[1], r, prev[0], val, prev[2], row, exact))
+                                if len(steps) > 20000:
+                                    return "-", steps
+                    except (KeyError, ZeroDivisionError, TypeError, OverflowError, Uncompilable) as e:
+                        return "?", "not tabulated (%s)" % (e,)
+                    prev = (val, r, row, uns)
+        if steps:
+            return "-", steps
+        return ("+" if dependent else "0"), None
+
+    def check_fixed(self, t, lo, hi, limit):
+        """As check_steps for one remembered event whose raw rows lo/hi (equal except in the stepped
+        slot) stand exactly for themselves: only the slots of t they do not mention are enumerated."""
+        import itertools
+
+        try:
+            fixed = dict((k_, x) for k_, x in lo.items() if k_ != self.slot)
+            fins, slots = self.support(t)
+            if self.slot not in slots:
+                return None
+            f_t = Dual(t, self.cmemo, self.fmemo)
+            comps = self.clusters(dict(fins))
+            reps_all = []
+            total = 1
+            W = {}
+            self.free_subterms(t, frozenset(lo), W)
+            groups = []
+            for sk, (w, wslots) in W.items():
+                hit = [g for g in groups if g["slots"] & wslots]
+                new = {"slots": set(wslots), "terms": [w]}
+                for g in hit:
+                    new["slots"] |= g["slots"]
+                    new["terms"] += g["terms"]
+                    groups.remove(g)
+                groups.append(new)
+            covered = set()
+            for g in groups:
+                leafs = [c for c in comps if c["slots"] & g["slots"]]
+                per_leaf = [self.leaf_reps(c) for c in leafs]
+                n = 1
+                for x in per_leaf:
+                    n *= max(len(x), 1)
+                if n > 200000:
+                    return "group of %d leaf combinations" % n
+                fws = [compile_term(w, self.cmemo) for w in g["terms"]]
+                seen = {}
+                for combo in itertools.product(*per_leaf) if per_leaf else [()]:
+                    row = {}
+                    for r_ in combo:
+                        row.update(r_)
+                    try:
+                        k2 = tuple(T.ckey(fw(row)) for fw in fws)
+                    except (KeyError, ZeroDivisionError, TypeError):
+                        continue
+                    seen.setdefault(k2, row)
+                reps_all.append(list(seen.values()))
+                total *= max(len(seen), 1)
+                covered |= g["slots"]
+            # leaves that mix fixed and free slots: enumerate their free slots raw
+            loose = sorted(s for s in slots if s not in lo and s not in covered)
+            if loose:
+                rows = list(self.rows(loose))
+                reps_all.append(rows)
+                total *= max(len(rows), 1)
+        except Uncompilable as e:
+            return "not tabulated (%s)" % e
+        done = 0
+        for combo in itertools.product(*reps_all) if reps_all else [()]:
+            done += 1
+            if done > limit:
+                return "table of %d entries: %d searched without a decrease (limit)" % (total, limit)
+            a, b = dict(lo), dict(hi)
+            for row in combo:
+                a.update(row)
+                b.update(row)
+            try:
+                va, ua = f_t.value(a)
+                vb, ub = f_t.value(b)
+                self.evals += 2
+                if va is not None and vb is not None and not isinstance(va, (bool, str)) and f_t.less(a, va, ua, b, vb, ub):
+                    return (a, b, f_t.exact(a), f_t.exact(b))
+            except (KeyError, ZeroDivisionError, TypeError, OverflowError, Uncompilable):
+                continue
+        return None
+
+    def check_steps(self, t, steps, limit):
+        """Does the enclosing term t decrease on any of the remembered steps of my cluster (given as
+        pairs of raw rows over the cluster's slots), for some valuation of everything else?
+        Returns None (never), a tuple (row lower, row higher, value, value), or a string when the
+        table is too large."""
+        import itertools
+
+        if not steps:
+            return None
+        fixed = set(steps[0][0])
+        try:
+            f_t, mine, other_reps, _exact = self.prepare(t)
+            if mine is None:
+                return None
+            extra = sorted(mine["slots"] - fixed)
+            extra_rows = [dict()]
+            if extra:
+                seen = {}
+                for row in self.rows(extra):
+                    for lo, hi in steps[:1]:
+                        a = dict(lo)
+                        a.update(row)
+                        try:
+                            key = tuple(T.ckey(f.table[tuple(a[s] for s in f.slots)]) for f in mine["fins"] if all(s in a for s in f.slots))
+                        except KeyError:
+                            key = None
+                    if key is not None:
+                        seen.setdefault((key, tuple(sorted((k_, T.ckey(x)) for k_, x in row.items())) if len(steps) > 1 else key), row)
+                extra_rows = list(seen.values())
+        except Uncompilable as e:
+            return "not tabulated (%s)" % e
+        total = len(steps) * len(extra_rows)
+        for reps in other_reps:
+            total *= max(len(reps), 1)
+        done = 0
+        for combo in itertools.product(*other_reps) if other_reps else [()]:
+            base = {}
+            for row in combo:
+                base.update(row)
+            for ex in extra_rows:
+                for lo, hi in steps:
+                    done += 1
+                    if done > limit:
+                        return "table of %d entries: %d searched without a decrease (limit)" % (total, limit)
+                    a, b = dict(base), dict(base)
+                    a.update(ex)
+                    b.update(ex)
+                    a.update(lo)
+                    b.update(hi)
+                    try:
+                        va, ua = f_t.value(a)
+                        vb, ub = f_t.value(b)
+                        self.evals += 2
+                        if va is not None and vb is not None and not isinstance(va, (bool, str)) and f_t.less(a, va, ua, b, vb, ub):
+                            return (a, b, f_t.exact(a), f_t.exact(b))
+                    except (KeyError, ZeroDivisionError, TypeError, OverflowError, Uncompilable):
+                        continue
+        return None
